@@ -47,9 +47,9 @@ Qed.
 Lemma in_db_get_clause : forall s c, In c (db s) -> exists ci, ci < n_clauses s /\ get_clause s ci = c.
 Proof.
   intros s c H. unfold db in H. apply in_app_or in H. unfold get_clause, n_clauses. destruct H as [H|H].
-  - destruct (In_nth _ _ [] H) as [i [Hi E]]. exists i. split. Set Printing All. Show. lia.
+  - destruct (In_nth (s_orig s) c ([] : clause) H) as [i [Hi E]]. exists i. split; [lia|].
     destruct (Nat.ltb_spec i (length (s_orig s))); [exact E | lia].
-  - destruct (In_nth _ _ [] H) as [i [Hi E]]. exists (length (s_orig s) + i). split; [lia|].
+  - destruct (In_nth (s_learned s) c ([] : clause) H) as [i [Hi E]]. exists (length (s_orig s) + i). split; [lia|].
     destruct (Nat.ltb_spec (length (s_orig s) + i) (length (s_orig s))); [lia|].
     replace (length (s_orig s) + i - length (s_orig s)) with i by lia. exact E.
 Qed.
@@ -112,7 +112,7 @@ Proof.
 Qed.
 
 Lemma reason_inv_assign : forall s v b r0, trail_inv s -> reason_inv s -> val_of s v = None -> v < length (s_vals s) ->
-  (forall r, r0 = Some r -> r < n_clauses s
+  (forall r, r0 = Some r -> 1 <= cur_level s -> r < n_clauses s
      /\ forall l, In l (get_clause s r) -> (lvar l = v /\ lpos l = b) \/ lit_value s l = Some false) ->
   reason_inv (assign v b r0 s).
 Proof.
@@ -124,7 +124,7 @@ Proof.
   rewrite level_of_assign in Hl by (rewrite (ti_len_levels s HT); exact Hv).
   change (n_clauses (assign v b r0 s)) with (n_clauses s). change (get_clause (assign v b r0 s) r) with (get_clause s r).
   simpl in Htr. destruct tr1 as [|x tr1'].
-  - simpl in Htr. injection Htr as E1 E2. subst w tr2. rewrite Nat.eqb_refl in Hr. destruct (Hob r Hr) as [Q1 Q2].
+  - simpl in Htr. injection Htr as E1 E2. subst w tr2. rewrite Nat.eqb_refl in Hr, Hl. destruct (Hob r Hr Hl) as [Q1 Q2].
     split; [exact Q1|]. intros l Hin. destruct (Q2 l Hin) as [[Qa Qb]|Qf].
     + left. split; [exact Qa|]. rewrite lit_value_assign_same by assumption. rewrite Qb. destruct b; reflexivity.
     + right. split; [apply Hkeep; exact Qf|]. apply (ti_assigned s HT). eapply lit_value_assigned. exact Qf.
